@@ -10,7 +10,7 @@ from sa.exc import CANCELLED
 from sa.flow import FnExit, Interp, TestAtom, WithEnter, call_of
 
 CLAIM = {
-    "text": "Decides the plumbing invariants of the three generator-driving layers (the low-level stream server's client task, the high-level stream and datagram handler generators, the datagram server's inner loop) and of the two request receivers: every async generator created there is closed (aclose awaited) on every exit edge and never driven after its close or replaced while live; every action (a received request, a thrown error, an upward-yielded value) is forwarded to the current generator exactly once - never dropped, overwritten or replayed, in particular not across a generator restart; the timeout passed to the next wait is the one most recently yielded by the current generator and is used for exactly one wait; the receivers drain before reading, feed every chunk they read, turn disconnects into StopAsyncIteration and every other outcome into a ThrowAction (so a parse error is thrown into the handler at its position instead of killing the task), and yield shielded when a request was already buffered; a new wait is only started after re-testing that the connection is not closing. The server-side client API stores its closing flag before it closes the connection on the graceful and on the cancelled path (close-path typestate of C14), and the caller's buffer lent to the event loop by the buffered receive path is withdrawn on every exit (lend typestate of C10). The asyncio transport under both receive paths reads its raw buffer only as `[:level]`, conserves bytes in its copy-out paths and keeps its read water marks within the buffer (rules of C10/C03). Round 4: is_closing() of the asyncio stream transport answers from the adapter's own flag only (raised only in its close paths); the framing helpers under the buffered request receiver search and read only the received part of the buffer (C02.bound, C01.scan); the buffer lent to the event loop is withdrawn in the callback. Round 5: after a parse error the consumer holds no dead parser; the JSON framer skips inter-document whitespace; nothing but parse errors escapes the deserialisation entry points (C10.parser, C01.ws, C06.esc under C15.recv). Round 6: the closing flag that the handler restart loop reads (_ConnectedClientAPI.is_closing) is raised only by the close paths (aclose, the disconnect hook and private steps of them), never by a failed send; eof_received() keeps the transport open so that buffered requests are still delivered.",
+    "text": "Decides the plumbing invariants of the three generator-driving layers (the low-level stream server's client task, the high-level stream and datagram handler generators, the datagram server's inner loop) and of the two request receivers: every async generator created there is closed (aclose awaited) on every exit edge and never driven after its close or replaced while live; every action (a received request, a thrown error, an upward-yielded value) is forwarded to the current generator exactly once - never dropped, overwritten or replayed, in particular not across a generator restart; the timeout passed to the next wait is the one most recently yielded by the current generator and is used for exactly one wait; the receivers drain before reading, feed every chunk they read, turn disconnects into StopAsyncIteration and every other outcome into a ThrowAction (so a parse error is thrown into the handler at its position instead of killing the task), and yield shielded when a request was already buffered; a new wait is only started after re-testing that the connection is not closing. The server-side client API stores its closing flag before it closes the connection on the graceful and on the cancelled path (close-path typestate of C14), and the caller's buffer lent to the event loop by the buffered receive path is withdrawn on every exit (lend typestate of C10). The asyncio transport under both receive paths reads its raw buffer only as `[:level]`, conserves bytes in its copy-out paths and keeps its read water marks within the buffer (rules of C10/C03). Round 4: is_closing() of the asyncio stream transport answers from the adapter's own flag only (raised only in its close paths); the framing helpers under the buffered request receiver search and read only the received part of the buffer (C02.bound, C01.scan); the buffer lent to the event loop is withdrawn in the callback. Round 5: after a parse error the consumer holds no dead parser; the JSON framer skips inter-document whitespace; nothing but parse errors escapes the deserialisation entry points (C10.parser, C01.ws, C06.esc under C15.recv). Round 6: the closing flag that the handler restart loop reads (_ConnectedClientAPI.is_closing) is raised only by the close paths (aclose, the disconnect hook and private steps of them), never by a failed send; eof_received() keeps the transport open so that buffered requests are still delivered. Round 7: aclose() of the adapters raises the closing flag on every path; `async with contextlib.aclosing(gen)` is read as try/finally aclose.",
     "note": "Trusted: AsyncGenAction.asend semantics (SendAction->asend, ThrowAction->athrow); the consumers deliver requests in stream order (C01/C02/C03). Not decided: value-level ordering inside the serializers; that TimeoutError is raised only if no request arrived in time (time).",
     "technique": "typestate by abstract interpretation: generator lifecycle (none/live/closed), action linearity (fresh/used), timeout provenance (fresh/stale/consumed), gate-before-wait; exception containment for the receivers; sibling comparison",
 }
